@@ -21,6 +21,10 @@ STRINGS.insert(2, "{[][<]CC[>|0 0 7 0 0 3|], [<]CO[>|2 0 0 0 1 0|]; [<]F, [>][H]
 STRINGS.insert(2, "[H]{[>] [<]CC[>|1 0 3 0|], [<]C(F)C[>|3 0 1 0|] [<]}|gauss(300, 20)|O")
 # a system: the component of a single-molecule generation, and the whole ensemble, are functions of the supplied generator too
 STRINGS.insert(3, "SYS:CCCO.|30%|CC{[$][$]CC[$][$]}|gauss(60, 10)|CO.|45%|c1ccccc1.|250|")
+# one fragment in two spellings with the same element sequence but another atom order (the implicit descriptor sits on atom 0 of the suffix:
+# the central carbon in one spelling, a methyl carbon in the other): what was generated from one must not decide what the other gives
+STRINGS.insert(4, "F{[$][$]CC[$][$]}|uniform(20, 60)|C(C)(C)O")
+STRINGS.insert(5, "F{[$][$]CC[$][$]}|uniform(20, 60)|CC(C)O")
 
 
 def choose_seeds(g, text):
@@ -45,7 +49,7 @@ def choose_seeds(g, text):
 def run(tier):
     g = common.import_repo()
     v = Verdict("C10", tier)
-    strings = STRINGS if tier == "thorough" else STRINGS[:9]
+    strings = STRINGS if tier == "thorough" else STRINGS[:11]
     # seeds are chosen with a RecordingRNG, but the replay uses numpy's default_rng: map through the drawn value
     seedmap = []
     for s in strings:
